@@ -221,11 +221,20 @@ class MockNumba:
         return inner
 
 
+class MockAtomic:
+    @staticmethod
+    def add(array, idx, val):
+        old = array[idx]
+        array[idx] += val
+        return old
+
+
 class MockCuda:
 
     def __init__(self):
         self.x = 0
         self.y = 0
+        self.atomic = MockAtomic()
 
     def jit(self, func=None, device=False):
         _ = device  # silence "not used" warning
